@@ -41,7 +41,15 @@ pub fn run_history(case: &Sx, mut after_op: impl FnMut(&mut Hist, usize)) -> His
         let v = op.as_lst();
         let r = std::panic::catch_unwind(std::panic::AssertUnwindSafe(|| {
             match v[0].as_sym() {
-                "add" => { let k = v[1].as_num() as usize; let a = h.eg.add_expr(h.terms[k].clone()); h.handles.push(a); h.handle_term.push(k); }
+                "add" => {
+                    let k = v[1].as_num() as usize;
+                    // with explanations, user-facing handles are syntactic (add_syn_expr); otherwise add_syn = add
+                    #[cfg(feature = "explanations")]
+                    let a = h.eg.add_syn_expr(h.terms[k].clone());
+                    #[cfg(not(feature = "explanations"))]
+                    let a = h.eg.add_expr(h.terms[k].clone());
+                    h.handles.push(a); h.handle_term.push(k);
+                }
                 "union" => {
                     let (i, j) = (v[1].as_num() as usize, v[2].as_num() as usize);
                     let just = if v.len() > 3 { Some(format!("j{}", v[3].as_num())) } else { None };
